@@ -28,6 +28,11 @@ class GoUnsupported(Exception):
     pass
 
 
+class GoTypeError(GoUnsupported):
+    """an operation no Go compiler accepts (arithmetic on an array / struct / slice value): the program is ill-typed - for GENERATED code
+    that is a defect of the generator, not a limit of this interpreter"""
+
+
 class GoPanic(Exception):
     pass
 
@@ -1020,6 +1025,9 @@ class Interp:
             return same if op == "==" else not same
         if op == "+" and isinstance(a, str) and isinstance(b, str):
             return a + b
+        if isinstance(a, (GArray, GStruct, GSlice)) or isinstance(b, (GArray, GStruct, GSlice)):
+            kind = lambda x: type(x).__name__[1:].lower() if isinstance(x, (GArray, GStruct, GSlice)) else "scalar"
+            raise GoTypeError("invalid operation: operator %s on %s and %s" % (op, kind(a), kind(b)))
         raise GoUnsupported("operator %s on %r, %r" % (op, a, b))
 
     def shift(self, op, a: GI, n):
